@@ -18,7 +18,7 @@ from numba_scfg.core.datastructures import basic_block as bb  # noqa: E402
 from numba_scfg.core.datastructures.scfg import SCFG  # noqa: E402
 from numba_scfg.core import transformations as tr  # noqa: E402
 
-EXTRA_PROPS_FILES = ["Scfg/Props/C13Doms.lean", "Scfg/Props/C13Sub.lean"]
+EXTRA_PROPS_FILES = ["Scfg/Props/C13Doms.lean", "Scfg/Props/C13Sub.lean", "Scfg/Props/C13Scc.lean"]
 LEVEL = "proof"
 NAMES = ["a", "b", "c", "d", "e", "f", "g", "h"]
 
@@ -153,6 +153,10 @@ def _work(chunk):
             lines.append("R " + line)
             meta.append((g, line, real, kind))
             meta.append("ref")
+            if kind == "scc" and real.startswith("ok "):
+                # the real answer is also judged by the verified validator (Scfg.C13.sccValid_sound)
+                lines.append(f"SPEC scc {line.split(' ')[1]} {real[3:]}")
+                meta.append("verdict")
     rep = drv.run(lines)
     mism, fails = [], []
     stats = Counter()
@@ -168,11 +172,16 @@ def _work(chunk):
         if not real.startswith("ok"):
             stats["abort:" + real.split(" ")[1]] += 1
         mm, sf = compare(kind, line, real, model, ref, None)
+        i += 2
+        if i < len(lines) and meta[i] == "verdict":
+            stats["scc answers judged by the verified validator"] += 1
+            if rep[i] != "1" and not sf:
+                sf = f"{line}: impl {real!r} rejected by the verified SCC validator"
+            i += 1
         if mm:
             mism.append((g, mm))
         if sf:
             fails.append((g, kind, sf))
-        i += 2
     return mism, fails, stats, len(chunk)
 
 
